@@ -16,7 +16,7 @@ META["C03"] = {
 }
 META["C04"] = {
     "text": "Same symbolic runs as C03 with the conservation oracle: per asset, SUM over all rows changes by exactly the event's amount (transfer 0, burn-address output -amount from 2.0.2, conversion -in/+floor(in*S/D)), every transfer output is credited to its named recipient, a bystander row is untouched, and balances are only written by the block transaction. Known finding D18 (zero-address sink before 2.0.2) is reported as KNOWN-FINDING.",
-    "note": "as C03; issuance units (coinbase, staking, developer, mint, nullify, FCT burns) are covered by their own harnesses as they are added",
+    "note": "as C03; held conversions and PEG requests are covered by the holding harness; issuance units (coinbase, staking, developer, mint, nullify, FCT burns) by C11/C14/C15's harnesses",
     "design_ref": "DESIGN.md §7 C04",
 }
 
@@ -28,7 +28,7 @@ META["C19"] = {
 
 META["C16"] = {
     "text": "Bounded symbolic model checking of the real ConversionSupplySet (AddConversion, Payouts, PayoutBig, dust rule with SortTxIDS) for every bank and request amount in uint64: total paid <= bank and == bank when requests exceed it, full fill when they fit, each payout >= its proportional floor share, dust < request count and only to a largest request; payout <= request holds except for the recorded dust finding D9.",
-    "note": "1..3 requests quick, ..4 thorough; math/big as Int (NIA, z3 5.1); refund/bank-table glue (recordPegnetRequests, SyncBank) added as its own harness when built",
+    "note": "1..3 requests quick, ..4 thorough; math/big as Int (NIA, z3 5.1); refund/bank-table glue (recordPegnetRequests, SyncBank, bank ledger rows) asserted in the holding harness",
     "design_ref": "DESIGN.md §7 C16",
 }
 
@@ -61,18 +61,18 @@ META["C06"] = {
 }
 META["C08"] = {
     "text": "Bounded symbolic model checking of block-application units on arbitrary third-party content: transaction-chain blocks with malformed / unsigned / mis-signed / repeated entries (C05 harness) and snapshot payout blocks must return nil and never panic; every Go run-time failure (index, nil, divide, type assertion) is an explicit path outcome of the interpreter. D2 found and fixed; D10 (pre-2.0.2 zero-rate snapshot) reported as KNOWN-FINDING.",
-    "note": "OPR/SPR grading glue (ext-id indexing, D1) and the SyncBlock glue are added as their harnesses are built; panics inside dependency graders/parsers are outside (DESIGN §9)",
+    "note": "also: the holding pass on every era (a reject must never become a block error), the real Grade/GradeS over symbolic entry lists (D1 found and fixed) and the real SyncBlock at 14 heights across all eras with arbitrary grader verdicts (D10 second shape reported as KNOWN-FINDING); panics inside dependency graders/parsers are outside (DESIGN §0.5, §9)",
     "design_ref": "DESIGN.md §7 C08",
 }
 
 META["C11"] = {
     "text": "Bounded symbolic model checking of the real ApplyGradedOPRBlock / ApplyGradedSPRBlock (+ InsertCoinbase, InsertStaking100Coinbase, AddToBalance) for an ARBITRARY grader verdict: each winner's payout address receives exactly Payout() once, an unparsable address pays nothing, nobody else changes, supply grows by the sum, one coinbase history record per paid winner with the amount.",
-    "note": "unit level; the Grade/GradeS glue (grader version by height, top-holder filter on the declared staker id, D1/D17) and ApplyFactoidBlock (FCT burns) need the dependency/Factom-client stubs of the glue harness and are not yet claimed",
+    "note": "plus the glue harnesses: the real Grade/GradeS (entries handed to the grader, top-holder filter) and the real SyncBlock (who is paid in which era, FCT burns credited) with grader constructors and Factom requests stubbed (natively through a dependency hook overlay); the grading decision itself is dependency code; binding of the declared staker id to the signing key (D17) is not encoded (DESIGN §0.6)",
     "design_ref": "DESIGN.md §7 C11",
 }
 META["C15"] = {
     "text": "Bounded symbolic model checking of the real DevelopersPayouts (+ InsertDeveloperRewardCoinbase), MintTokensForBalance and NullifyMintedTokens with symbolic prior balances: per-address developer amounts from the specified percentage table, total exactly 2000 PEG (x144 from 2.0.2), minted amounts per asset from the specified table x 1e8, remaining minted supply driven to exactly 0 for listed assets and untouched otherwise, bystanders untouched, history records written.",
-    "note": "unit level at the relevant concrete heights; the when (height == activation, height % 144) is SyncBlock/DBlockSync glue and NullifyBurnAddress needs a Factom-client stub: not yet claimed",
+    "note": "units at the relevant concrete heights per era; the cadence (height == activation, height % 144, snapshot-before-payout) is asserted in the SyncBlock glue harness over 14 heights",
     "design_ref": "DESIGN.md §7 C15",
 }
 
@@ -90,7 +90,7 @@ META["C20"] = {
 
 META["C12"] = {
     "text": "Bounded symbolic model checking of (a) the real GetAssetRates in the open era (>= 2.0.2): with float64 modelled EXACTLY (dyadic rationals, inputs bounded so no rounding can occur) the solver shows for all OPR/SPR rates that each recorded rate is the OPR's when 0.75*spr <= opr <= 1.25*spr and 0 otherwise, and the other winner's rates when one is absent; (b) the real InsertRates/insertRate/SelectIssuances: one row per asset named p<asset>, PEG priced 0 / floor(sum(supply*rate)/supply_PEG) / as reported by phase, a second insert for a height fails and changes nothing, pn_rate is never updated or deleted.",
-    "note": "closed-era bands (10 %, 1 %/0.1 %) need IEEE rounding of non-dyadic constants and are not covered; which phase/band SyncBlock selects per height and 'no winners => no rates, no holding pass' are glue (not yet claimed)",
+    "note": "closed-era bands (10 %, 1 %/0.1 %) need IEEE rounding of non-dyadic constants and are NOT covered (with both winners present only heights >= 2.0.2 are explored; known design-time finding D7 lives in the uncovered era); which phase SyncBlock selects per height and 'no winners => no rates' are asserted in the SyncBlock glue harness",
     "design_ref": "DESIGN.md §7 C12",
 }
 
@@ -101,8 +101,8 @@ META["C02"] = {
     "technique": "bounded symbolic execution of the real Go code (go/ssa -> SMT, z3 5.1) with a crash oracle over every DB-API call; crash points replayed on real SQLite",
 }
 META["C10"] = {
-    "text": "Same loop harness with a FAULT ORACLE: every single DB-API call of the run fails once (returns an error, no effect), or one upstream Factom request fails once; after the loop's own retry the ledger must equal the fault-free ledger. Found D5 (developer payout / mint-burn errors swallowed; fixed) and reports D6 (result of NullifyBurnAddress discarded) as KNOWN-FINDING.",
-    "note": "single transient fault; multiFetch goroutine faults and the unchecked status updates of the transaction/holding passes need entries in the blocks (not in this harness yet); faults natively replayed through a counting wrapper around the real SQLite driver",
+    "text": "Same loop harness with a FAULT ORACLE: every single DB-API call of the run fails once (returns an error, no effect), or one upstream Factom request fails once; after the loop's own retry the ledger must equal the fault-free ledger. Plus unit fault harnesses for block content: the real ApplyTransactionBlock (1 entry of every kind) and the real holding pass (1 held conversion), each run with EVERY DB-API call of the unit failing once against a fault-free twin of the same symbolic scenario: the unit must fail (and its retry must reach the fault-free ledger) or end the process, or leave exactly the fault-free store. Found D5 (developer payout / mint-burn errors swallowed; four status-update results dropped; fixed) and reports D6 (result of NullifyBurnAddress discarded) as KNOWN-FINDING.",
+    "note": "single transient fault per run; faults inside multiFetch's goroutines are outside; faults natively replayed through a counting wrapper around the real SQLite driver",
     "design_ref": "DESIGN.md §7 C10",
     "technique": "bounded symbolic execution of the real Go code (go/ssa -> SMT, z3 5.1) with a fault oracle over every DB-API call and upstream request; faults replayed on real SQLite",
 }
